@@ -6,7 +6,8 @@ set -u
 d="$(cd "$1" && pwd)"; shift
 wt="/tmp/rw-seedrun-$$"
 git -C /repo worktree add -q --detach "$wt" HEAD || exit 2
-trap 'git -C /repo worktree remove --force "$wt" >/dev/null 2>&1; rm -rf "$(dirname "$0")/../harness"/target-$(python3 -c "import hashlib;print(hashlib.sha1(b\"$wt\").hexdigest()[:8])")' EXIT
+tag=$(python3 -c "import hashlib;print(hashlib.sha1(b\"$wt\").hexdigest()[:8])")
+trap 'git -C /repo worktree remove --force "$wt" >/dev/null 2>&1; rm -rf "$(dirname "$0")/../harness/target-$tag" "$(dirname "$0")/../work/hm-$tag" "$(dirname "$0")/../work/scratch-$tag"' EXIT
 if ! git -C "$wt" apply "$d/patch.diff"; then echo "patch does not apply"; exit 1; fi
 cd "$(dirname "$0")/.."
 for pid in "$@"; do
